@@ -139,6 +139,7 @@ EDITS = [
     ("retype-field-object-to-interface", "  me: User\n", "  me: Named\n", "me"),
     # narrowing an abstract output type to one of its members: fragments on the other members stop being spreadable
     ("retype-field-union-to-member", "  pet: Pet\n", "  pet: Dog\n", "pet"),
+    ("retype-field-object-to-nonnull-interface", "  setName(name: String!): User\n", "  setName(name: String!): Named!\n", "setName"),
     ("retype-field-list-of-union-to-member", "  pets: [Pet!]\n", "  pets: [Cat!]\n", "pets"),
     ("retype-field-list-of-interface-to-member", "roles: [Role!] = [ADMIN]): [Named]", "roles: [Role!] = [ADMIN]): [User]", "search"),
     # an object's own refinement of a field it inherits from an interface (the interface itself is unchanged)
@@ -155,6 +156,9 @@ EDIT_OPERATIONS = [
     "{ pets { ... on Cat { name(upper: false) lives } ... on Dog { name } } }",
     "{ node(id: \"1\", fresh: true) { id } }",
     "{ me { height maxAgeProbe: age } }",
+    # valid where `me` is of an abstract type: fragments on its other members (narrowing the field to one member breaks them)
+    "{ me { name ... on Dog { barks } ... on Cat { lives } } }",
+    "{ node(id: \"1\") { id ... on Cat { lives } } }",
 ]
 
 # operations valid against BASE_SDL; each exercises some of the elements the edits touch
